@@ -129,20 +129,45 @@ def gen_scripts(ctx, tier):
     return scripts
 
 
+MAX_REPORTS = 3
+
+
 def explore(ctx, res):
     res.level = "proof"
     tier = "thorough" if ctx["deep"] else ctx["tier"]
-    scripts = []
+    corpus = []
     for f in sorted(glob.glob(os.path.join(core.VERIF, "corpus", "C06", "*.json"))):
-        j = json.load(open(f))
-        scripts.append(("corpus:" + os.path.basename(f), j["ops"]))
-    scripts += gen_scripts(ctx, tier)
-    runs = D.run_scripts(scripts, workers=8 if tier == "quick" else 12)
-    evals = validated = 0
-    nontriv = set()
-    samples, dist = [], {"epochs_attempted": 0, "epochs_completed_by_all_live_members": 0, "epochs_completed_partially": 0, "epochs_not_completed": 0,
-                         "nodes_completed": 0, "subsets_signed": 0, "n_t": {}, "schemes": {}, "net_stats": {}, "model": {}}
+        corpus.append(("corpus:" + os.path.basename(f), json.load(open(f))["ops"]))
+    quick = gen_scripts(ctx, "quick")
+    stages = [corpus + quick]
+    if tier != "quick":
+        # the deeper scripts run only if the quick ones found nothing (a broken proof / tie makes the tier thorough)
+        names = {q[0] for q in quick}
+        stages.append([x for x in gen_scripts(ctx, tier) if x[0] not in names])
+    acc = {"evals": 0, "validated": 0, "nontriv": set(), "samples": [], "seen": set(),
+           "dist": {"epochs_attempted": 0, "epochs_completed_by_all_live_members": 0, "epochs_completed_partially": 0, "epochs_not_completed": 0,
+                    "nodes_completed": 0, "subsets_signed": 0, "n_t": {}, "schemes": {}, "net_stats": {}, "model": {}, "scripts": 0}}
+    for stage in stages:
+        if any(f for _, f in res.violations):
+            break
+        evaluate(ctx, res, D.run_scripts(stage, workers=8), acc)
+    dist = acc["dist"]
+    if dist["epochs_attempted"] and dist["nodes_completed"] == 0:
+        raise core.Broken("harness:dkgrun", "no DKG completed on any node: the runs say nothing about the property")
+    res.cov.update(evaluations=acc["evals"], distinct_nontrivial=len(acc["nontriv"]), traces_validated_against_impl=acc["validated"],
+                   samples=acc["samples"], distribution=dist)
+    res.cov["rule"] = ("scripts of 1-5 epochs on 1-4 (thorough: 1-6) real dkg.Process instances with real kyber DKG over an in-memory client: first epoch and reshares "
+                       "(same set, +1, -1, threshold up/down), participant lists permuted, bundles delayed/reordered/duplicated, one slow node, one node offline "
+                       "(QUAL a strict subset), completion held to just before / after / across a round boundary; evaluations = epochs run (and judged); non-trivial = distinct "
+                       "(scheme, op, group size, threshold, schedule, epoch) on which at least one node completed; traces_validated = completed epochs whose every "
+                       "finished DBState was reproduced field by field by the Lean asGroup / ordering / transition-time functions")
+    res.cov["level_note"] = "partial: ordering, group assembly and share algebra are proved; agreement on QUAL under all schedules is PedersenSpec, sampled"
+
+
+def evaluate(ctx, res, runs, acc):
+    dist = acc["dist"]
     for name, lines, outs in runs:
+        dist["scripts"] += 1
         scheme = None
         for k, (line, r) in enumerate(zip(lines, outs)):
             if line.startswith("net "):
@@ -158,7 +183,7 @@ def explore(ctx, res):
                 # the machine was too loaded for kyber's synchrony assumption (bundles within the phase): no verdict from this script
                 dist["epochs_discarded_unsynchronised"] = dist.get("epochs_discarded_unsynchronised", 0) + 1
                 break
-            evals += 1
+            acc["evals"] += 1
             dist["epochs_attempted"] += 1
             comp = D.completed(r)
             live = r.get("members") or []
@@ -177,31 +202,29 @@ def explore(ctx, res):
                 key = f"n={len(g['nodes'])},t={g['thr']}"
                 dist["n_t"][key] = dist["n_t"].get(key, 0) + 1
                 dist["schemes"][scheme] = dist["schemes"].get(scheme, 0) + 1
-                nontriv.add((scheme, r["op"], len(g["nodes"]), g["thr"], line.split("sched=")[1].split()[0] if "sched=" in line else "-", r["epoch"]))
+                acc["nontriv"].add((scheme, r["op"], len(g["nodes"]), g["thr"], line.split("sched=")[1].split()[0] if "sched=" in line else "-", r["epoch"]))
             prefix = lines[:k + 1]
-            for sig, why, detail in D.oracle_c06(r):
-                res.report(sig, {"engine": "dkgrun", "kind": "impl-violates", "script": name, "ops": prefix, "oracle": why, "observed": detail})
-            if any(v for v, _ in res.violations):
-                continue
-            if ctx["model_ok"] and comp:
+            bad = D.oracle_c06(r)
+            for sig, why, detail in bad:
+                # one replay per kind of failure is enough; the first ones come from the shortest scripts
+                if sig in acc["seen"] or len([1 for _, f in res.violations if f]) >= MAX_REPORTS:
+                    continue
+                if res.report(sig, {"engine": "dkgrun", "kind": "impl-violates", "script": name, "ops": prefix, "oracle": why, "observed": detail}):
+                    acc["seen"].add(sig)
+            if any(s != D.STRADDLE_SIG for s, _, _ in bad):
+                break
+            if ctx["model_ok"] and comp and not any(f for _, f in res.violations):
                 d = D.model_diff_c06(r, dist["model"])
                 if d:
                     op, obs, expd, note = d
-                    res.add_violation({"engine": "dkgrun", "kind": "model-impl-diverge", "script": name, "ops": prefix + ["# model op: " + op], "observed": [obs],
-                                       "expected": [expd], "note": "correspondence 'dkgrun' (asGroup / ordering / transition time) no longer checks; the C06 oracle accepts "
-                                       "the implementation's answers on this run. " + note}, found=False)
+                    if "model" not in acc["seen"]:
+                        acc["seen"].add("model")
+                        res.add_violation({"engine": "dkgrun", "kind": "model-impl-diverge", "script": name, "ops": prefix + ["# model op: " + op], "observed": [obs],
+                                           "expected": [expd], "note": "correspondence 'dkgrun' (asGroup / ordering / transition time) no longer checks; the C06 oracle "
+                                           "accepts the implementation's answers on this run. " + note}, found=False)
                 else:
-                    validated += 1
-            if len(samples) < 4 and comp:
+                    acc["validated"] += 1
+            if len(acc["samples"]) < 4 and comp:
                 g = comp[sorted(comp)[0]]["fin"]["group"]
-                samples.append({"script": name, "op": line, "completed_nodes": sorted(comp), "group": {"thr": g["thr"], "transition": g["transition"],
-                                "nodes": [(n["index"], n["who"]) for n in g["nodes"]], "hash": g["hash"][:16]}, "subsets": len(r.get("subsets") or [])})
-    if dist["epochs_attempted"] and dist["nodes_completed"] == 0:
-        raise core.Broken("harness:dkgrun", "no DKG completed on any node: the runs say nothing about the property")
-    res.cov.update(evaluations=evals, distinct_nontrivial=len(nontriv), traces_validated_against_impl=validated, samples=samples, distribution=dist)
-    res.cov["rule"] = ("scripts of 1-5 epochs on 1-4 (thorough: 1-6) real dkg.Process instances with real kyber DKG over an in-memory client: first epoch and reshares "
-                       "(same set, +1, -1, threshold up/down), participant lists permuted, bundles delayed/reordered/duplicated, one slow node, one node offline "
-                       "(QUAL a strict subset), completion held to just before / after / across a round boundary; evaluations = epochs run; non-trivial = distinct "
-                       "(scheme, op, group size, threshold, schedule, epoch) on which at least one node completed; traces_validated = completed epochs whose every "
-                       "finished DBState was reproduced field by field by the Lean asGroup / ordering / transition-time functions")
-    res.cov["level_note"] = "partial: ordering, group assembly and share algebra are proved; agreement on QUAL under all schedules is PedersenSpec, sampled"
+                acc["samples"].append({"script": name, "op": line, "completed_nodes": sorted(comp), "group": {"thr": g["thr"], "transition": g["transition"],
+                                       "nodes": [(n["index"], n["who"]) for n in g["nodes"]], "hash": g["hash"][:16]}, "subsets": len(r.get("subsets") or [])})
